@@ -63,9 +63,9 @@ claimed("C18", "exploration",
   "Preemption inside dependencies is not explored; the race detector is trusted for what it instruments.",
   "deterministic simulation (seeded schedules over instrumented yield points, snapshot monitors, race detector under a serialised deterministic schedule)", "3/C18")
 claimed("C19", "exploration",
-  "Decode histories of a server that reuses destination variables and network buffers: LOAD/DECODE/SCRIBBLE/ENCODE sequences over valid, damaged and foreign-kind inputs; reference model = fresh decode of a pristine copy of the last good input; atomicity on failure; address-based no-aliasing check against every harness buffer and earlier output.",
+  "Decode histories of a server that reuses destination variables and network buffers: LOAD/DECODE/SCRIBBLE/ENCODE sequences over valid, damaged and foreign-kind inputs; reference model = fresh decode of a pristine copy of the last good input; atomicity on failure; address-based no-aliasing check against every harness buffer and earlier output. One run in twelve is a block of 2-4 caller tasks decoding at the same time under a tape-drawn schedule (every go-cose statement a preemption point): each result equals the result of decoding the same bytes alone.",
   "Deep snapshots are taken as what a reader can observe.",
-  "deterministic simulation (seeded operation histories with buffer-reuse and scribble faults against a reference model)", "3/C19")
+  "deterministic simulation (seeded operation histories with buffer-reuse and scribble faults against a reference model; tape-driven schedules of concurrent decodes)", "3/C19")
 claimed("C20", "fault_enumeration",
   "Every assignment of {ok, signer error, empty / nil signature, bytes-with-error, HSM error, bad DER, entropy error at byte k, short reads} to each signer call and {ok, verifier error} to each verifier call is enumerated for all 14 signing/verifying entry points with n <= 4 (7483 vectors), each under several tape-drawn contexts; oracle: error propagated with identity, no bytes, failing slot empty, message not serialisable, no later call made, nothing with an empty signature is ever emitted.",
   "Exhaustive over the fault-vector dimension, sampled over contexts (headers, payload, keys, k).",
